@@ -13,6 +13,7 @@
 //     of a parrot whose ALPN list differs;
 //   - ECDSA / RSA / Ed25519 leaf alone (when signature_algorithms offers a usable scheme); each advertised
 //     certificate-compression algorithm; for the *_PSK parrots a resumption attempt answered by a HelloRetryRequest.
+//
 // After every handshake the client performs Writes of 1, 2, 17, 16384 and 20000 bytes, the server echoes them.
 //   - Go-side oracle (property text): the server answered the hello and the client did not complete -> `<kind>/<class>`;
 //     a Write that does not report (len(b), nil) -> `app-write/<class>`; the echo differs -> `app-echo/<class>`;
